@@ -297,6 +297,40 @@ def hist_task(t):
     return dict(n=n, states=len(states), violations=viols)
 
 
+REP_FAIL = [3, 4, 5, 6, 11]      # scripts refused at different points (open list, unknown command in a block, open test list, ...)
+REP_PROBE = [0, 2, 5, 9, 10]
+
+
+def rep_task(t):
+    """repetition ladder: ONE parser refuses the same script N times (N = 1, 2, 4, ... - anything that accumulates per failure shows
+    at some N), then parses the probes; every outcome must equal the pristine one"""
+    fi, top, base_parse = t
+    ns = seams.load()
+    ensure_custom(ns)
+    if _saved is None:
+        save_state(ns)
+    restore_state(ns)
+    viols = []
+    n = 0
+    p = ns.parser.Parser()
+    done = 0
+    for k in range(0, top + 1):
+        N = 2 ** k
+        while done < N:
+            seams.run_parse(SCRIPTS[fi], parser=p, want_tree=False)
+            done += 1
+            n += 1
+        for pi in REP_PROBE + [fi]:
+            got = parse_outcome(ns, p, SCRIPTS[pi])
+            n += 1
+            if got != base_parse[pi]:
+                viols.append({"property": "C13", "engine": "factory", "signature": ["C13", "parse(script%d)" % pi, "after:%d x script%d" % (N, fi), "parse:repetition"],
+                              "what": "one parser refused script%d %d times, then script%d gives %s, pristine interpreter gives %s" % (fi, N, pi, _short(got), _short(base_parse[pi])),
+                              "case": {"rep": [fi, k]}, "witness": "%d x P.parse(script%d) ; P.parse(script%d)" % (N, fi, pi), "observed": _short(got)})
+                return dict(n=n, states=0, violations=viols)
+    return dict(n=n, states=0, violations=viols)
+
+
 def run(tier, seed):
     depth = 3 if tier == "quick" else 4
     # pristine baselines first: the parent has imported sievelib (seams.load in workers' parent) but executed nothing
@@ -316,6 +350,7 @@ def run(tier, seed):
             base_fs[tuple(t[1])] = out
     evs = events()
     res = pool.run_tasks("checks.c13:hist_task", [(i, depth, base_parse, base_fs) for i in range(len(evs))])
+    res += pool.run_tasks("checks.c13:rep_task", [(fi, 10 if tier == "quick" else 14, base_parse) for fi in REP_FAIL])
     n = sum(r["n"] for r in res)
     viols = []
     for r in res:
@@ -353,6 +388,12 @@ def replay_task(t):
 def replay(payload):
     """everything runs in forked workers so that the calling process stays pristine"""
     seams.load()
+    if payload["case"].get("rep"):
+        seams.load()
+        bres = pool.run_tasks("checks.c13:baseline_task", [("parse", i) for i in range(len(SCRIPTS))], fresh_each=True, chunksize=1)
+        base_parse = {t[1]: out for t, out in bres}
+        fi, k = payload["case"]["rep"]
+        return pool.run_tasks("checks.c13:rep_task", [(fi, k, base_parse)], force_pool=True)[0]["violations"]
     if payload["case"].get("overlap"):
         from . import c03
         return c03.replay(payload)
